@@ -445,18 +445,20 @@ Definition run_c04_tree (l : list N) : list N :=
   end.
 
 (* ---- kind 12: an observed event trace handed to the executable log-discipline protocol.
-   n ev* ; ev: 1 len = append of a record with len stores | 2 = log synced | 3 = store | 4 = record done |
-   5 = all tables flushed | 6 n = log truncated up to record n.  Output: 1 nrecs synced enacted truncated, or 0 *)
+   n ev* ; ev: 1 len cell* = append of a record with len stores to the given cells (file id * 2^40 + index) |
+   2 = log synced | 3 = store | 4 = record done | 5 = all tables flushed | 7 x = table file x flushed |
+   6 n = log truncated up to record n.  Output: 1 nrecs synced enacted truncated, or 0 *)
 Fixpoint parse_wevs (fuel : nat) (l : list N) : list wev :=
   match fuel with
   | O => []
   | S f =>
       match l with
-      | 1 :: len :: r => EAppend {| ws := map (fun i => (N.of_nat i, 0)) (seq 0 (N.to_nat len)) |} :: parse_wevs f r
+      | 1 :: len :: r => EAppend {| ws := map (fun c => (c, 0)) (firstn (N.to_nat len) r) |} :: parse_wevs f (skipn (N.to_nat len) r)
       | 2 :: r => ESyncLog :: parse_wevs f r
       | 3 :: r => EStore :: parse_wevs f r
       | 4 :: r => EFinish :: parse_wevs f r
       | 5 :: r => EFlush :: parse_wevs f r
+      | 7 :: x :: r => ESyncFile x :: parse_wevs f r
       | 6 :: n :: r => ETruncate (N.to_nat n) :: parse_wevs f r
       | _ => []
       end
